@@ -2,6 +2,10 @@ import Pithos.Util.S3Driver
 import Pithos.Util.C14Driver
 open Pithos.Proto Pithos.S3Driver
 /-- C14: the S3-level judge (transitions preserve the object) on every case, and the routing
-tie + judge (lean/Pithos/Util/C14Driver.lean) on the cases that carry routing observations. -/
+tie + judge (lean/Pithos/Util/C14Driver.lean) on the cases that carry routing observations.
+Part-store faults armed by the routing histories are folded into the operations' result lines
+first; the S3-level judge does not see the calls that failed because a fault struck. -/
 def main : IO Unit :=
-  runDriver fun k lines => Pithos.C14Driver.merge (judgeCase "C14" k lines) (Pithos.C14Driver.judgeRouting k lines)
+  runDriver fun k lines =>
+    let n := Pithos.C14Driver.normalize lines
+    Pithos.C14Driver.merge (judgeCase "C14" k (Pithos.C14Driver.forS3 n)) (Pithos.C14Driver.judgeRouting k n)
